@@ -846,6 +846,64 @@ def aliasing_stream(ctx, specs):
                     ctx.count("aliasing=%s/%s" % (direction, dk))
 
 
+def value_alias_one(ctx, va, tags=()):
+    """va = {"spec", "route", "poke", "derive": op, "direction", "vaxis"}: a table is left in some layout, a table is
+    derived from it by an operation of this property, then the values of ONE of the two are changed in place and —
+    before anything else is asked of either — the OTHER must still hold what it held"""
+    spec, d = va["spec"], va["derive"]
+
+    def mk():
+        t = build_table(spec, va["route"])
+        poke = va["poke"]
+        if t.shape[0] and t.shape[1]:
+            if poke == "col":
+                t.data(t.ids()[0], axis="sample")
+            elif poke == "row":
+                t.data(t.ids(axis="observation")[0], axis="observation")
+            elif isinstance(poke, dict):
+                core.poke_layout(t, random.Random(poke["seed"]), 3)
+        return t
+    twin = mk()
+    src_was = observe(build_table(spec, va["route"]))[0]
+    der_was = observe(apply_op(twin, d))[0]
+    t = mk()
+    r = apply_op(t, d)
+    ctx.case({"value_alias": va})
+    full = {"case": {"value_alias": va}}
+    if r is t:
+        ctx.fail(full, "bystander.unchanged_and_coherent", tuple(tags) + ("derived-table-is-the-receiver",))
+        return
+    changed, other, was = (r, t, src_was) if va["direction"] == "change-derived" else (t, r, der_was)
+    changed.transform(lambda v, i, m: v * 3 + 1, axis=va["vaxis"], inplace=True)
+    now, bad = observe(other)
+    ctx.count("value-alias=%s/%s" % (d["op"], va["direction"]))
+    if bad or now != was:
+        ctx.fail(full, "bystander.unchanged_and_coherent",
+                 tuple(tags) + ("value-alias", "derived-by=" + d["op"], va["direction"]) + tuple(bad or ["content changed"]))
+
+
+def value_aliasing_stream(ctx, specs):
+    rng = ctx.rng
+    for spec in specs:
+        if not spec["obs"] or not spec["samp"]:
+            continue
+        for dk in ("transpose", "copy", "sort_order", "sort", "update_ids"):
+            for poke in ("col", "row", {"seed": rng.randrange(10 ** 6)}):
+                for direction in ("change-derived", "change-source"):
+                    dax = rng.choice(AX)
+                    if dk == "sort_order":
+                        d = {"op": dk, "order": random_perm(rng, spec["obs" if dax == "observation" else "samp"]), "axis": dax}
+                    elif dk == "sort":
+                        d = {"op": dk, "f": rng.choice(["default", "reverse", "rotate"]), "axis": dax}
+                    elif dk == "update_ids":
+                        d = {"op": dk, "id_map": gen_map(rng, spec["obs" if dax == "observation" else "samp"], "partial-injective"),
+                             "axis": dax, "strict": False, "inplace": False}
+                    else:
+                        d = {"op": dk}
+                    value_alias_one(ctx, {"spec": spec, "route": rng.choice(["dense", "csr", "csc"]), "poke": poke, "derive": d,
+                                          "direction": direction, "vaxis": rng.choice(AX)}, ("value-aliasing",))
+
+
 def share_labels(rng, spec):
     """give the two axes (partly) the same ID text, each in its own order"""
     obs, samp = spec["obs"], spec["samp"]
@@ -1278,6 +1336,7 @@ def run(ctx):
     evaluate(ctx, mk_case(specs[0], "dense", [], {"op": "sort", "f": "reverse", "axis": "sample"}), ("fixed",))
     fixed_corpus(ctx)
     aliasing_stream(ctx, specs[:2] if quick else specs)
+    value_aliasing_stream(ctx, specs[:3] if quick else specs)
     container_stream(ctx, specs[:1] if quick else specs[:3])
     metadata_aliasing_stream(ctx, [specs[0]] if quick else [specs[0], specs[2]])
     degenerate_shape_stream(ctx)
@@ -1313,6 +1372,9 @@ def run(ctx):
 
 def replay(ctx, rec):
     full = rec["case"]
+    if "value_alias" in full.get("case", {}):
+        value_alias_one(ctx, full["case"]["value_alias"], ("replay",))
+        return
     case = full["case"] if "spec" not in full else full
     if case.get("op") is None:
         case = dict(case, op={"op": "copy"})
